@@ -210,6 +210,9 @@ fn c12_gen_cfg() -> GenCfg {
     cfg.modules = (2, 5);
     cfg.assigns = (1, 9);
     cfg.comments = false; // see c11.rs: comment placement is not a definition
+    cfg.classes = true;
+    cfg.real_components = true;
+    cfg.echo_inner_names = true;
     cfg
 }
 
@@ -579,8 +582,19 @@ fn check_imports(out: &mut Outcome, p: &SubPlan, refs: &SubRef, mi: usize, block
         let names = &names;
         let decl_text: String = decls.iter().map(|d| d.text.clone()).collect::<Vec<_>>().join(" ");
         out.count("import_clauses_checked", 1);
+        // How a clause that imports an information object class or a parameterized template is
+        // spelled (wildcard or names) follows rules of the backend that the property does not
+        // state; for such clauses only the existence of the declaration is judged here — the
+        // block comparison (oracle B) still sees any influence of a neighbour on it.
+        let special = imp.symbols.iter().any(|s| s.contains("{}") || s.chars().all(|c| c.is_uppercase() || c == '-' || c.is_ascii_digit()));
+        if special {
+            out.count("import_clauses_with_class_or_template", 1);
+            continue;
+        }
         if cfg.default_wildcard_imports {
-            if names.len() != 1 || !names.contains("*") {
+            let assoc = associated_of(p, refs, m);
+            let extras_ok = names.iter().all(|n| n == "*" || assoc.contains(&(target.clone(), n.clone())));
+            if !names.contains("*") || !extras_ok {
                 out.violate("imports-become-use", format!("default_wildcard_imports is set but the use declaration for {} is {:?}; {ctx}", imp.from, names));
             }
             continue;
@@ -592,9 +606,11 @@ fn check_imports(out: &mut Outcome, p: &SubPlan, refs: &SubRef, mi: usize, block
         // every imported symbol is matched by exactly one entry that the exporting module
         // really produces for that assignment (learned by leave-one-out, no mangling rules here)
         let mut unmatched: BTreeSet<String> = names.clone();
+        let mut attribution_complete = true;
         for sym in &imp.symbols {
             let cands = attr_of(&imp.from, sym);
             if cands.is_empty() {
+                attribution_complete = false;
                 continue; // attribution unknown (e.g. exporting module does not compile alone)
             }
             let hit: Vec<&String> = names.iter().filter(|n| cands.contains(*n)).collect();
@@ -607,6 +623,9 @@ fn check_imports(out: &mut Outcome, p: &SubPlan, refs: &SubRef, mi: usize, block
         }
         // additional entries are accepted only for types associated with imported values
         for extra in unmatched {
+            if !attribution_complete {
+                break; // an entry may belong to a symbol whose items are unknown
+            }
             let exporting = p.set.get(&imp.from);
             let assoc_ok = exporting.is_some_and(|em| {
                 imp.symbols.iter().any(|s| {
